@@ -182,9 +182,30 @@ func init() {
 						ox, oy = 0, 0
 					}
 					ring := randRing(r, n, 16, ox, oy)
+					seam := r.P(1, 8)
+					if seam {
+						// almost closed: a last vertex 2^-31 (or 2^-20) beside the first one - a real, very short closing edge.
+						// (All coordinates stay dyadic with few enough bits that the library's cross products are exact in
+						// float64: that is the domain the property names. 2^-31 against quarter-step queries needs 43 bits.)
+						e := math.Ldexp(1, -[]int{31, 26, 20}[r.Intn(3)])
+						ring = append(ring, P{ring[0][0] + e*float64(r.Range(-1, 1)), ring[0][1] + e*float64(r.Range(-1, 1))})
+						n = len(ring)
+					}
 					var pts []P
 					for i := 0; i < 40; i++ {
 						pts = append(pts, P{ox + float64(r.Range(-4, 68))/4, oy + float64(r.Range(-4, 68))/4})
+					}
+					// a hair beside the boundary (2^-30 and 2^-45 of a unit): strictly inside or strictly outside, never "on";
+					// and the column and row through the first vertex (where the seam of the ring is)
+					for i := 0; i < 10; i++ {
+						a := ring[r.Intn(len(ring))]
+						b := ring[r.Intn(len(ring))]
+						m := P{(a[0] + b[0]) / 2, (a[1] + b[1]) / 2}
+						e := math.Ldexp(1, -[]int{30, 24}[r.Intn(2)])
+						if !seam { // (2^-30 against integer edges: 40 bits; not combined with the 2^-31 seam vertex)
+							pts = append(pts, P{m[0] + e*float64(r.Range(-1, 1)), m[1] + e*float64(r.Range(-1, 1))})
+						}
+						pts = append(pts, P{ring[0][0], oy + float64(r.Range(-4, 68))/4}, P{ox + float64(r.Range(-4, 68))/4, ring[0][1]})
 					}
 					// queries on vertices and edge midpoints too
 					for i := range ring {
